@@ -56,79 +56,52 @@ type c12GridUse struct {
 
 func c12GridUses(fi *FuncInfo, owner string) []c12GridUse {
 	info := fi.Pkg.TypesInfo
+	// locals that name one row of the grid: `line := grid[o]` or `for o, line := range grid`
+	rowOf := map[types.Object]ast.Expr{}
+	ast.Inspect(fi.Decl.Body, func(n ast.Node) bool {
+		switch t := n.(type) {
+		case *ast.RangeStmt:
+			if fieldOwner(info, unparen(t.X)) == owner && t.Key != nil && t.Value != nil {
+				if id, ok := t.Value.(*ast.Ident); ok {
+					if o := info.ObjectOf(id); o != nil {
+						rowOf[o] = t.Key
+					}
+				}
+			}
+		case *ast.AssignStmt:
+			if len(t.Lhs) == len(t.Rhs) {
+				for i, l := range t.Lhs {
+					id, ok := l.(*ast.Ident)
+					ix, ok2 := unparen(t.Rhs[i]).(*ast.IndexExpr)
+					if ok && ok2 && fieldOwner(info, unparen(ix.X)) == owner {
+						if o := info.ObjectOf(id); o != nil {
+							if def := c12SingleDef(fi, o); def != nil {
+								rowOf[o] = ix.Index
+							}
+						}
+					}
+				}
+			}
+		}
+		return true
+	})
 	var out []c12GridUse
 	ast.Inspect(fi.Decl.Body, func(n ast.Node) bool {
 		ix, ok := n.(*ast.IndexExpr)
 		if !ok {
 			return true
 		}
-		in, ok := unparen(ix.X).(*ast.IndexExpr)
-		if !ok || fieldOwner(info, in.X) != owner {
-			return true
-		}
-		out = append(out, c12GridUse{outer: in.Index, inner: ix.Index, node: ix})
-		return true
-	})
-	return out
-}
-
-// cursorFieldsOf: the emulator cursor fields ("Model.cursor.row") an index expression is computed from,
-// following the definitions of local variables.
-func c12CursorFields(fi *FuncInfo, e ast.Expr, depth int) map[string]bool {
-	info := fi.Pkg.TypesInfo
-	out := map[string]bool{}
-	ast.Inspect(e, func(n ast.Node) bool {
-		switch t := n.(type) {
-		case *ast.SelectorExpr:
-			if p := canonPath(info, t); strings.HasPrefix(p, "Model.cursor.") {
-				out[p] = true
-				return false
+		switch x := unparen(ix.X).(type) {
+		case *ast.IndexExpr:
+			if fieldOwner(info, unparen(x.X)) == owner {
+				out = append(out, c12GridUse{outer: x.Index, inner: ix.Index, node: ix})
 			}
 		case *ast.Ident:
-			if v, ok := info.ObjectOf(t).(*types.Var); ok && !v.IsField() && depth < 3 {
-				ast.Inspect(fi.Decl.Body, func(m ast.Node) bool {
-					as, ok := m.(*ast.AssignStmt)
-					if !ok || len(as.Lhs) != len(as.Rhs) {
-						return true
-					}
-					for i, l := range as.Lhs {
-						if id, ok := l.(*ast.Ident); ok && info.ObjectOf(id) == v {
-							for k := range c12CursorFields(fi, as.Rhs[i], depth+1) {
-								out[k] = true
-							}
-						}
-					}
-					return true
-				})
+			if o, ok := rowOf[info.ObjectOf(x)]; ok {
+				out = append(out, c12GridUse{outer: o, inner: ix.Index, node: ix})
 			}
 		}
 		return true
-	})
-	return out
-}
-
-func (st *c12State) printFn() *FuncInfo {
-	info := st.update.Pkg.TypesInfo
-	var out *FuncInfo
-	ast.Inspect(st.update.Decl.Body, func(n ast.Node) bool {
-		cc, ok := n.(*ast.CaseClause)
-		if !ok || len(cc.List) != 1 {
-			return true
-		}
-		if t := info.TypeOf(cc.List[0]); t == nil || !types.Identical(t, st.lang.ansi["Print"]) {
-			return true
-		}
-		for _, s := range cc.Body {
-			ast.Inspect(s, func(m ast.Node) bool {
-				if call, ok := m.(*ast.CallExpr); ok && out == nil {
-					if fn := calleeOf(info, call); fn != nil {
-						out = st.c.P.FuncOfObj(fn)
-					}
-				}
-				return true
-			})
-		}
-		return false
 	})
 	return out
 }
@@ -148,69 +121,91 @@ func (st *c12State) coordChain() {
 		info := render.Pkg.TypesInfo
 		uses := c12GridUses(render, "screen.buf")
 		n := 0
-		for _, site := range st.cupArgs {
-			if site.e.Fn != render || len(site.args) != 2 {
+		for _, site0 := range st.cupArgs {
+			if len(site0.args) != 2 {
 				continue
 			}
-			a0, a1 := rootObj(info, c12StripPlus(site.args[0])), rootObj(info, c12StripPlus(site.args[1]))
-			// only the cell-addressing CUP: its arguments are index variables of the screen grid
-			isOuter, isInner, asInner0, asOuter1 := false, false, false, false
-			for _, u := range uses {
-				if rootObj(info, u.outer) == a0 {
-					isOuter = true
-				}
-				if rootObj(info, u.inner) == a1 {
-					isInner = true
-				}
-				if rootObj(info, u.inner) == a0 {
-					asInner0 = true
-				}
-				if rootObj(info, u.outer) == a1 {
-					asOuter1 = true
-				}
+			// a CUP written by a helper of render: substitute the helper's parameters by the call's arguments
+			var sites [][]ast.Expr
+			if site0.e.Fn == render {
+				sites = append(sites, site0.args)
+			} else {
+				sites = c12ArgsAtCallers(render, site0.e.Fn, site0.args)
 			}
-			if !isOuter && !isInner && !asInner0 && !asOuter1 {
-				continue // placement origin etc.
+			for _, args := range sites {
+				a0, a1 := rootObj(info, c12StripPlus(args[0])), rootObj(info, c12StripPlus(args[1]))
+				// only the cell-addressing CUP: its arguments are index variables of the screen grid
+				isOuter, isInner, asInner0, asOuter1 := false, false, false, false
+				for _, u := range uses {
+					if rootObj(info, u.outer) == a0 {
+						isOuter = true
+					}
+					if rootObj(info, u.inner) == a1 {
+						isInner = true
+					}
+					if rootObj(info, u.inner) == a0 {
+						asInner0 = true
+					}
+					if rootObj(info, u.outer) == a1 {
+						asOuter1 = true
+					}
+				}
+				if !isOuter && !isInner && !asInner0 && !asOuter1 {
+					continue // placement origin etc.
+				}
+				n++
+				key := fmt.Sprintf("coordinate chain/%s addresses cell buf[r][c] with CUP(r+1, c+1)", render.Name)
+				c.check(isOuter && isInner && !asInner0 && !asOuter1, "C12.e", key, site0.e.Call.Pos(), "first CUP parameter is the outer (row) index of the screen grid, second the inner (column) index",
+					fmt.Sprintf("the CUP parameters (%s, %s) are not (outer index, inner index) of the cell being drawn: the emulator, which maps parameter 1 to %s, receives a transposed address", types.ExprString(args[0]), types.ExprString(args[1]), rowField))
 			}
-			n++
-			key := fmt.Sprintf("coordinate chain/%s addresses cell buf[%s][%s] with CUP(%s, %s)", render.Name, types.ExprString(c12StripPlus(site.args[0])), types.ExprString(c12StripPlus(site.args[1])), types.ExprString(site.args[0]), types.ExprString(site.args[1]))
-			c.check(isOuter && isInner && !asInner0 && !asOuter1, "C12.e", key, site.e.Call.Pos(), "first CUP parameter is the outer (row) index of the screen grid, second the inner (column) index",
-				"the CUP parameters are not (outer index, inner index) of the cell being drawn: the emulator, which maps parameter 1 to "+rowField+", receives a transposed address")
 		}
 		if n == 0 {
 			c.undecided("C12.e", "coordinate chain/"+render.Name+" cell CUP", render.Decl.Pos(), "no CUP whose arguments are the indices of the screen grid was found")
 		}
 	}
-	// (2) emulator print stores at activeScreen[cursor.row][cursor.col]
-	if pf := st.printFn(); pf == nil {
-		c.undecided("C12.e", "coordinate chain/emulator print", st.update.Decl.Pos(), "handler of ansi.Print not found")
-	} else {
-		info := pf.Pkg.TypesInfo
-		n := 0
-		ast.Inspect(pf.Decl.Body, func(x ast.Node) bool {
-			as, ok := x.(*ast.AssignStmt)
-			if !ok || len(as.Lhs) != 1 {
-				return true
+	// (2) emulator print stores at activeScreen[cursor.row][cursor.col]: symbolic execution of update() on a
+	// printable grapheme; the clamps and the wrap produce other index values, but never the other cursor field
+	{
+		key := "coordinate chain/the emulator stores a printed glyph at activeScreen[cursor row][cursor column]"
+		pv := &c12Struct{Typ: st.lang.ansi["Print"], Fields: map[string]c12Val{"Grapheme": c12Str{Parts: []c12Part{{Sym: c12Sym{Hole: 0}}}}, "Width": c12Int{1}}}
+		// both exploration orders: then-branches first and else-branches first, so that the straight path
+		// (no wrap, no insert mode, no clamp) is explored whichever way the guards are written
+		paths, _ := c12Run(c.P, st.update, termPtySink, nil, pv)
+		rev, _ := c12RunOpt(c.P, st.update, &c12Exec{sink: termPtySink, reverse: true}, pv)
+		paths = append(paths, rev...)
+		exact, stores := 0, 0
+		var bad, unsup []string
+		var pos token.Pos = st.update.Decl.Pos()
+		for _, p := range paths {
+			unsup = append(unsup, p.Unsupp...)
+			for _, ef := range p.Effects {
+				if ef.Path != "Model.activeScreen[][]" || len(ef.Idx) != 2 {
+					continue
+				}
+				if _, whole := ef.Val.(*c12Struct); !whole {
+					continue
+				}
+				stores++
+				pos = ef.Node.Pos()
+				o, _ := ef.Idx[0].(c12Sym)
+				i, _ := ef.Idx[1].(c12Sym)
+				if o.Desc == colField || i.Desc == rowField {
+					bad = append(bad, fmt.Sprintf("glyph stored at activeScreen[%s][%s]", c12Show(ef.Idx[0]), c12Show(ef.Idx[1])))
+				}
+				if o.Desc == rowField && i.Desc == colField {
+					exact++
+				}
 			}
-			ix, ok := unparen(as.Lhs[0]).(*ast.IndexExpr)
-			if !ok {
-				return true
-			}
-			in, ok := unparen(ix.X).(*ast.IndexExpr)
-			if !ok || fieldOwner(info, in.X) != "Model.activeScreen" {
-				return true
-			}
-			// whole-cell store only
-			n++
-			of, inf := c12CursorFields(pf, in.Index, 0), c12CursorFields(pf, ix.Index, 0)
-			key := fmt.Sprintf("coordinate chain/%s stores the glyph at activeScreen[%s][%s]", pf.Name, types.ExprString(in.Index), types.ExprString(ix.Index))
-			okk := len(of) == 1 && of[rowField] && len(inf) == 1 && inf[colField]
-			c.check(okk, "C12.e", key, as.Pos(), fmt.Sprintf("outer index from %s, inner index from %s", rowField, colField),
-				fmt.Sprintf("CUP parameter 1 sets %s and parameter 2 sets %s, but the glyph is stored with outer index from %v and inner index from %v", rowField, colField, c12KeysOf(of), c12KeysOf(inf)))
-			return true
-		})
-		if n == 0 {
-			c.undecided("C12.e", "coordinate chain/"+pf.Name, pf.Decl.Pos(), "no store of a cell into activeScreen[·][·] found")
+		}
+		switch {
+		case len(bad) > 0:
+			c.bad("C12.e", key, pos, "CUP parameter 1 sets %s and parameter 2 sets %s, but: %s", rowField, colField, strings.Join(c12Dedup(bad), "; "))
+		case exact > 0:
+			c.ok("C12.e", key, pos, "outer index from %s, inner index from %s (%d stores on %d explored paths)", rowField, colField, stores, len(paths))
+		case len(unsup) > 0:
+			c.undecided("C12.e", key, pos, "%s", strings.Join(c12Dedup(unsup), "; "))
+		default:
+			c.undecided("C12.e", key, pos, "no path of the print handler stores a cell at activeScreen[%s][%s] (%d stores seen)", rowField, colField, stores)
 		}
 	}
 	// (3) Draw reads activeScreen[r][c] and calls SetCell with c at the inner-index parameter
@@ -242,130 +237,174 @@ func c12StripPlus(e ast.Expr) ast.Expr {
 
 // ---------------------------------------------------------------- C12.d
 
+// draw: C12.d is decided on the symbolic execution of Draw (loops run for one generic iteration), so
+// hoisted reads, range loops, extracted helpers and merged or split guards make no difference.
 func (st *c12State) draw() {
 	c := st.c
 	fi := c.P.Func("widgets/term.(*Model).Draw")
-	if fi == nil {
-		c.undecided("C12.d", "widgets/term.(*Model).Draw", 0, "Draw not found")
+	if fi == nil || fi.Decl.Type.Params.NumFields() != 1 {
+		c.undecided("C12.d", "widgets/term.(*Model).Draw", 0, "Draw(win) not found")
 		return
 	}
-	info := fi.Pkg.TypesInfo
-	g := c.P.Graph(fi)
 	inner, outer, okOrder := st.setCellOrder()
-	// SetCell calls
-	nSet := 0
-	for _, h := range g.Calls(func(fn *types.Func, _ *ast.CallExpr) bool { return fn != nil && repoName(fn) == "vaxis.Window.SetCell" }) {
-		call := h.Node.(*ast.CallExpr)
-		nSet++
-		key := fmt.Sprintf("%s/copies cell [r][c] of the grid to window cell (c, r)", fi.Name)
-		if !okOrder || len(call.Args) != 3 {
-			c.undecided("C12.d", key, call.Pos(), "SetCell parameter order unknown")
+	if !okOrder {
+		c.undecided("C12.d", fi.Name+"/SetCell parameter order", fi.Decl.Pos(), "cannot determine which SetCell parameter is the column")
+		return
+	}
+	winT := fi.Pkg.TypesInfo.TypeOf(fi.Decl.Type.Params.List[0].Type)
+	isWin := func(v c12Val) bool {
+		cv, ok := v.(c12Conv)
+		return ok && types.Identical(cv.Typ, winT)
+	}
+	opt := &c12Exec{generic: true, snap: true}
+	opt.inlineIf = func(callee *FuncInfo, args []c12Val) bool {
+		for _, a := range args {
+			if isWin(a) {
+				return true // helpers that draw into the window
+			}
+		}
+		// other helpers only when they are small and do not write the emulator's state themselves
+		// (getters such as width(); a resize is not part of copying the grid)
+		return c12StmtCount(callee.Decl.Body) <= 16 && !c12WritesReceiver(callee)
+	}
+	paths, _ := c12RunOpt(c.P, fi, opt, c12Conv{Typ: winT, X: c12Sym{Hole: -1, Desc: "win"}})
+	var unsup []string
+	for _, p := range paths {
+		unsup = append(unsup, p.Unsupp...)
+	}
+	if len(unsup) > 0 {
+		c.undecided("C12.d", fi.Name, fi.Decl.Pos(), "Draw not understood: %s", strings.Join(c12Dedup(unsup), "; "))
+		return
+	}
+	// ---- cells
+	type site struct {
+		call             *ast.CallExpr
+		bad, cover, unde []string
+		okN              int
+		desc             string
+	}
+	sites := map[*ast.CallExpr]*site{}
+	var order []*ast.CallExpr
+	symDesc := func(v c12Val) (string, bool) {
+		s, ok := v.(c12Sym)
+		return s.Desc, ok && s.Hole < 0 && s.K == 0
+	}
+	for _, p := range paths {
+		for _, cl := range p.Calls {
+			if cl.Fn == nil || repoName(cl.Fn) != "vaxis.Window.SetCell" || len(cl.Args) != 3 {
+				continue
+			}
+			s := sites[cl.Call]
+			if s == nil {
+				s = &site{call: cl.Call}
+				sites[cl.Call] = s
+				order = append(order, cl.Call)
+			}
+			ld, ok := cl.Args[2].(c12Load)
+			if !ok || ld.Path != "Model.activeScreen[][]" || len(ld.Idx) != 2 {
+				s.unde = append(s.unde, fmt.Sprintf("the cell passed to SetCell is %s, not a cell read from activeScreen[r][c]", c12Show(cl.Args[2])))
+				continue
+			}
+			ro, okO := symDesc(ld.Idx[0])
+			ci, okI := symDesc(ld.Idx[1])
+			ao, okA := symDesc(cl.Args[outer])
+			ai, okB := symDesc(cl.Args[inner])
+			s.desc = fmt.Sprintf("SetCell(%s, %s, …) for %s", c12Show(cl.Args[0]), c12Show(cl.Args[1]), c12Show(ld))
+			if !okO || !okI || !okA || !okB {
+				s.unde = append(s.unde, "indices of the copied cell are not plain loop variables: "+s.desc)
+				continue
+			}
+			if ro != ao || ci != ai || ro == ci {
+				s.bad = append(s.bad, fmt.Sprintf("SetCell takes the column at parameter %d and the row at parameter %d; Draw calls %s: the picture is transposed or shifted", inner+1, outer+1, s.desc))
+			} else {
+				s.okN++
+			}
+			// coverage of the two loops
+			for _, want := range []struct{ sym, whole, part string }{{ro, "len(Model.activeScreen)", "Model.activeScreen"}, {ci, "len(Model.activeScreen[])", "Model.activeScreen["}} {
+				found := false
+				for _, lp := range p.Loops {
+					if lp.Sym != want.sym {
+						continue
+					}
+					found = true
+					switch lp.Kind {
+					case "range":
+						full := lp.Over == want.part || (strings.HasSuffix(want.part, "[") && strings.HasPrefix(lp.Over, want.part))
+						if !full {
+							s.cover = append(s.cover, fmt.Sprintf("index %s ranges over %s", want.sym, lp.Over))
+						}
+					case "for":
+						i0, isInt := lp.Init.(c12Int)
+						b, isSym := lp.Bound.(c12Sym)
+						okBound := isSym && b.Desc == want.whole && ((lp.Op == "<" && b.K == 0) || (lp.Op == "<=" && b.K == -1))
+						if !isInt || i0.V != 0 {
+							s.cover = append(s.cover, fmt.Sprintf("loop over %s starts at %s", want.sym, c12Show(lp.Init)))
+						}
+						if !okBound {
+							s.cover = append(s.cover, fmt.Sprintf("loop over %s runs while %s (bound %s), not up to %s", want.sym, lp.Cond, c12Show(lp.Bound), want.whole))
+						}
+					}
+				}
+				if !found {
+					s.cover = append(s.cover, fmt.Sprintf("index %s is not a loop variable", want.sym))
+				}
+			}
+		}
+	}
+	if len(order) == 0 {
+		c.bad("C12.d", fi.Name+"/copies the grid through Window.SetCell", fi.Decl.Pos(), "Draw does not call Window.SetCell: the emulator's grid never reaches the host window")
+	}
+	for _, call := range order {
+		s := sites[call]
+		key := fi.Name + "/copies cell [r][c] of the grid to window cell (c, r)"
+		switch {
+		case len(s.bad) > 0:
+			c.bad("C12.d", key, call.Pos(), "%s", strings.Join(c12Dedup(s.bad), "; "))
+		case len(s.unde) > 0 && s.okN == 0:
+			c.undecided("C12.d", key, call.Pos(), "%s", strings.Join(c12Dedup(s.unde), "; "))
+		default:
+			c.ok("C12.d", key, call.Pos(), "%s", s.desc)
+		}
+		key2 := fi.Name + "/the copy loops start at 0 and run to the grid's height and width"
+		if s.okN == 0 && len(s.bad) == 0 {
+			c.undecided("C12.d", key2, call.Pos(), "copy loop not identified")
+		} else {
+			c.check(len(s.cover) == 0, "C12.d", key2, call.Pos(), "both indices cover 0 ≤ i < dimension of activeScreen", strings.Join(c12Dedup(s.cover), "; "))
+		}
+	}
+	st.drawCursor(fi, paths)
+}
+
+// focusField: the field of Model that Focus()/Blur() write (name of the last path component).
+func (st *c12State) focusField() string {
+	for _, n := range []string{"widgets/term.(*Model).Focus", "widgets/term.(*Model).Blur"} {
+		fi := st.c.P.Func(n)
+		if fi == nil {
 			continue
 		}
-		// the cell argument: selector of a local defined as activeScreen[o][i]
-		cellRoot := rootObj(info, call.Args[2])
-		var use *c12GridUse
-		if cellRoot != nil {
-			if def := c12SingleDef(fi, cellRoot); def != nil {
-				for _, u := range c12GridUses(fi, "Model.activeScreen") {
-					if u.node == unparen(def) {
-						uu := u
-						use = &uu
+		paths, _ := c12Run(st.c.P, fi, nil, nil)
+		for _, p := range paths {
+			for _, ef := range p.Effects {
+				if i := strings.LastIndex(ef.Path, "."); i >= 0 {
+					return ef.Path[i+1:]
+				}
+			}
+			for _, cl := range p.Calls {
+				for _, a := range cl.Args {
+					if r, ok := a.(c12Ref); ok {
+						if i := strings.LastIndex(r.Path, "."); i >= 0 {
+							return r.Path[i+1:]
+						}
 					}
 				}
 			}
 		}
-		if use == nil {
-			c.undecided("C12.d", key, call.Pos(), "the cell passed to SetCell is not a local read from activeScreen[·][·]")
-			continue
-		}
-		okk := rootObj(info, call.Args[inner]) == rootObj(info, use.inner) && rootObj(info, call.Args[outer]) == rootObj(info, use.outer) && rootObj(info, use.inner) != rootObj(info, use.outer)
-		c.check(okk, "C12.d", key, call.Pos(), fmt.Sprintf("SetCell(%s, %s, …) for activeScreen[%s][%s]", types.ExprString(call.Args[0]), types.ExprString(call.Args[1]), types.ExprString(use.outer), types.ExprString(use.inner)),
-			fmt.Sprintf("SetCell takes the column at parameter %d and the row at parameter %d; Draw passes (%s, %s) for the cell activeScreen[%s][%s]: the picture is transposed", inner+1, outer+1, types.ExprString(call.Args[0]), types.ExprString(call.Args[1]), types.ExprString(use.outer), types.ExprString(use.inner)))
-		// the loop must visit every row and column: bounds are the grid's own dimensions
-		st.drawLoopBounds(fi, call)
 	}
-	if nSet == 0 {
-		c.bad("C12.d", fi.Name+"/copies the grid through Window.SetCell", fi.Decl.Pos(), "Draw does not call Window.SetCell: the emulator's grid never reaches the host window")
-	}
-	// ShowCursor
-	st.drawCursor(fi, g)
+	return ""
 }
 
-func (st *c12State) drawLoopBounds(fi *FuncInfo, call *ast.CallExpr) {
+func (st *c12State) drawCursor(fi *FuncInfo, paths []*c12Path) {
 	c := st.c
-	info := fi.Pkg.TypesInfo
-	par := c.P.Parents(fi.Pkg)
-	var loops []*ast.ForStmt
-	for cur := ast.Node(call); cur != nil && cur != fi.Decl; cur = par[cur] {
-		if f, ok := cur.(*ast.ForStmt); ok {
-			loops = append(loops, f)
-		}
-	}
-	key := fi.Name + "/the copy loops start at 0 and run to the grid's height and width"
-	if len(loops) != 2 {
-		c.undecided("C12.d", key, call.Pos(), "SetCell is not inside two nested for loops (%d)", len(loops))
-		return
-	}
-	var bad []string
-	for _, f := range loops {
-		// init: v := 0
-		as, ok := f.Init.(*ast.AssignStmt)
-		if !ok || len(as.Rhs) != 1 {
-			bad = append(bad, "loop without simple initialiser")
-			continue
-		}
-		if v, isC := constInt(info, as.Rhs[0]); !isC || v != 0 {
-			bad = append(bad, fmt.Sprintf("loop starts at %s", types.ExprString(as.Rhs[0])))
-		}
-		b, ok := f.Cond.(*ast.BinaryExpr)
-		if !ok || b.Op != token.LSS {
-			bad = append(bad, fmt.Sprintf("loop condition %s is not `index < dimension`", types.ExprString(f.Cond)))
-			continue
-		}
-		if call, ok := unparen(b.Y).(*ast.CallExpr); ok {
-			if fn := calleeOf(info, call); fn != nil {
-				if dim := c.P.FuncOfObj(fn); dim != nil && st.isGridDim(dim) {
-					continue
-				}
-			}
-		}
-		bad = append(bad, fmt.Sprintf("loop bound %s is not a dimension of the emulator's grid", types.ExprString(b.Y)))
-	}
-	c.check(len(bad) == 0, "C12.d", key, call.Pos(), "both loops are 0 ≤ i < dimension of activeScreen", strings.Join(bad, "; "))
-}
-
-// isGridDim: a method returning len(vt.activeScreen) or len(vt.activeScreen[0]).
-func (st *c12State) isGridDim(fi *FuncInfo) bool {
-	info := fi.Pkg.TypesInfo
-	found := false
-	ast.Inspect(fi.Decl.Body, func(n ast.Node) bool {
-		rs, ok := n.(*ast.ReturnStmt)
-		if !ok || len(rs.Results) != 1 {
-			return true
-		}
-		call, ok := unparen(rs.Results[0]).(*ast.CallExpr)
-		if !ok || len(call.Args) != 1 {
-			return true
-		}
-		if id, ok := call.Fun.(*ast.Ident); !ok || id.Name != "len" {
-			return true
-		}
-		a := unparen(call.Args[0])
-		if ix, ok := a.(*ast.IndexExpr); ok {
-			a = ix.X
-		}
-		if fieldOwner(info, a) == "Model.activeScreen" {
-			found = true
-		}
-		return true
-	})
-	return found
-}
-
-func (st *c12State) drawCursor(fi *FuncInfo, g *FG) {
-	c := st.c
-	info := fi.Pkg.TypesInfo
 	// host side: Vaxis.ShowCursor parameter k -> cursorNext field; showCursor() emits which field at which CUP slot
 	hostShow := c.P.Func("vaxis.(*Vaxis).ShowCursor")
 	winShow := c.P.Func("vaxis.Window.ShowCursor")
@@ -387,7 +426,6 @@ func (st *c12State) drawCursor(fi *FuncInfo, g *FG) {
 			}
 		}
 	}
-	// showCursor() result
 	var tmpl string
 	var syms []c12Val
 	for _, p := range st.runOnHoles(emit, 0) {
@@ -397,15 +435,14 @@ func (st *c12State) drawCursor(fi *FuncInfo, g *FG) {
 			}
 		}
 	}
-	// emulator field addressed by each host cursor field
 	hostToEmu := map[string]string{}
 	hi := 0
 	for _, s := range parseSeqs(tmpl) {
 		n := c12CountHoles(s.Raw)
 		if s.Kind == "CSI" && n > 0 {
-			paths, _, err := st.feedEmulator(s, 0, nil)
+			ps, _, err := st.feedEmulator(s, 0, nil)
 			if err == nil {
-				for _, p := range paths {
+				for _, p := range ps {
 					for _, ef := range p.Effects {
 						if sym, ok := ef.Val.(c12Sym); ok && sym.Hole >= 0 && sym.Hole < n && hi+sym.Hole < len(syms) {
 							if hs, ok := syms[hi+sym.Hole].(c12Sym); ok && hs.Hole < 0 {
@@ -422,7 +459,6 @@ func (st *c12State) drawCursor(fi *FuncInfo, g *FG) {
 		c.undecided("C12.d", keyBase, fi.Decl.Pos(), "could not establish the cursor chain: ShowCursor parameters → %v, showCursor() %q → emulator fields %v", paramField, tmpl, hostToEmu)
 		return
 	}
-	// the field the emulator's cursor-visibility mode writes
 	vis := ""
 	for _, s := range parseSeqs(tmpl) {
 		if s.Kind == "CSI" && s.Private == "?" && s.Final == "h" {
@@ -432,41 +468,66 @@ func (st *c12State) drawCursor(fi *FuncInfo, g *FG) {
 			}
 		}
 	}
-	hits := g.Calls(func(fn *types.Func, _ *ast.CallExpr) bool {
-		return fn != nil && repoName(fn) == "vaxis.Window.ShowCursor"
-	})
-	if len(hits) == 0 {
+	focus := st.focusField()
+	type site struct {
+		call      *ast.CallExpr
+		bad, miss []string
+		conds     string
+	}
+	sites := map[*ast.CallExpr]*site{}
+	var order []*ast.CallExpr
+	for _, p := range paths {
+		for _, cl := range p.Calls {
+			if cl.Fn == nil || repoName(cl.Fn) != "vaxis.Window.ShowCursor" || len(cl.Args) != 3 {
+				continue
+			}
+			s := sites[cl.Call]
+			if s == nil {
+				s = &site{call: cl.Call}
+				sites[cl.Call] = s
+				order = append(order, cl.Call)
+			}
+			for k := 0; k < 3; k++ {
+				want := hostToEmu[paramField[k]]
+				got := c12Show(cl.Args[k])
+				cur := want // the current value of that field at the call
+				if v, written := cl.Store[want]; written {
+					cur = c12Show(v)
+				}
+				if got != want && got != cur {
+					s.bad = append(s.bad, fmt.Sprintf("argument %d is %s; that parameter becomes %s, which a Vaxis child writes into the emulator's %s", k+1, got, paramField[k], want))
+				}
+			}
+			visOK, focusOK := false, false
+			var cs []string
+			for _, cd := range p.Conds[:cl.NCond] {
+				cs = append(cs, cd.Expr+"="+cd.Val)
+				if cd.Expr == vis && cd.Val == "true" {
+					visOK = true
+				}
+				if focus != "" && strings.Contains(cd.Expr, focus) && cd.Val == "true" {
+					focusOK = true
+				}
+			}
+			s.conds = strings.Join(cs, " ∧ ")
+			if !visOK {
+				s.miss = append(s.miss, fmt.Sprintf("reachable without %s being true (path: %s)", vis, s.conds))
+			}
+			if !focusOK {
+				s.miss = append(s.miss, fmt.Sprintf("reachable without the focus flag (%s) being set (path: %s)", focus, s.conds))
+			}
+		}
+	}
+	if len(order) == 0 {
 		c.bad("C12.d", keyBase, fi.Decl.Pos(), "Draw never shows the cursor")
 		return
 	}
-	for _, h := range hits {
-		call := h.Node.(*ast.CallExpr)
-		var bad []string
-		for k := 0; k < 3 && k < len(call.Args); k++ {
-			want := hostToEmu[paramField[k]]
-			got := canonPath(info, stripConv(info, call.Args[k]))
-			if got != want {
-				bad = append(bad, fmt.Sprintf("argument %d is %s; that parameter becomes %s, which a Vaxis child writes into the emulator's %s", k+1, got, paramField[k], want))
-			}
-		}
-		c.check(len(bad) == 0, "C12.d", keyBase+" passes the emulator's cursor fields in the order of the window API", call.Pos(),
-			fmt.Sprintf("%v via %v", hostToEmu, paramField), strings.Join(bad, "; "))
-		gk := guardKeys(g, h.Loc)
-		var miss []string
-		if vis == "" || !containsStr(gk, "+"+vis) {
-			miss = append(miss, fmt.Sprintf("not under the cursor-visibility mode field %s (guards %v)", vis, gk))
-		}
-		focus := false
-		for _, k := range gk {
-			if strings.HasPrefix(k, "+") && strings.Contains(k, "focused") {
-				focus = true
-			}
-		}
-		if !focus {
-			miss = append(miss, "not under the focus flag")
-		}
-		c.check(len(miss) == 0, "C12.d", keyBase+" only when the child shows its cursor and the widget is focused", call.Pos(), fmt.Sprintf("guards %v", gk),
-			"a child that hid its cursor (CSI ?25l, which the renderer writes at the start of every frame with a hidden cursor) still gets a cursor drawn: "+strings.Join(miss, "; "))
+	for _, call := range order {
+		s := sites[call]
+		c.check(len(s.bad) == 0, "C12.d", keyBase+" passes the emulator's cursor fields in the order of the window API", call.Pos(),
+			fmt.Sprintf("%v via %v", hostToEmu, paramField), strings.Join(c12Dedup(s.bad), "; "))
+		c.check(len(s.miss) == 0, "C12.d", keyBase+" only when the child shows its cursor and the widget is focused", call.Pos(), "on every path: "+s.conds,
+			"a child that hid its cursor (CSI ?25l, which the renderer writes at the start of every frame with a hidden cursor) still gets a cursor drawn: "+strings.Join(c12Dedup(s.miss), "; "))
 	}
 }
 
@@ -644,4 +705,68 @@ func (st *c12State) widthAgreement() {
 		c.check(same, "C12.f", key, rw.Decl.Pos(), fmt.Sprintf("method %s (arm %s of gwidth) and %s both measure with %v", types.ExprString(sel[0]), arm, emuFn, c12KeysOf(emuLibs)),
 			fmt.Sprintf("the emulator measures every printed grapheme with %v (%s) and advances its cursor by that width, but it does not report mode 2027, so a Vaxis child selects method %s, which measures with %v: for a grapheme on which the two disagree (U+2764 U+FE0F: 1 vs 2) every following cell of the row lands in a different column than the child's screen has it", c12KeysOf(emuLibs), emuFn, types.ExprString(sel[0]), c12KeysOf(libs)))
 	}
+}
+
+// c12ArgsAtCallers: args are expressions over the parameters of helper; for every call of helper in caller,
+// return args with parameters replaced by the call's argument expressions (identity when args is a parameter ± const).
+func c12ArgsAtCallers(caller, helper *FuncInfo, args []ast.Expr) [][]ast.Expr {
+	hinfo := helper.Pkg.TypesInfo
+	cinfo := caller.Pkg.TypesInfo
+	var params []types.Object
+	for _, f := range helper.Decl.Type.Params.List {
+		for _, n := range f.Names {
+			params = append(params, hinfo.Defs[n])
+		}
+	}
+	var out [][]ast.Expr
+	ast.Inspect(caller.Decl.Body, func(n ast.Node) bool {
+		call, ok := n.(*ast.CallExpr)
+		if !ok || calleeOf(cinfo, call) != helper.Obj || len(call.Args) != len(params) {
+			return true
+		}
+		var sub []ast.Expr
+		for _, a := range args {
+			ro := rootObj(hinfo, c12StripPlus(a))
+			var repl ast.Expr
+			for i, p := range params {
+				if p == ro {
+					repl = call.Args[i]
+				}
+			}
+			if repl == nil {
+				return true
+			}
+			sub = append(sub, repl)
+		}
+		out = append(out, sub)
+		return true
+	})
+	return out
+}
+
+// c12WritesReceiver: the function assigns to a field (or element) reached through its receiver.
+func c12WritesReceiver(fi *FuncInfo) bool {
+	if fi.Decl.Recv == nil || len(fi.Decl.Recv.List) != 1 || len(fi.Decl.Recv.List[0].Names) != 1 {
+		return false
+	}
+	info := fi.Pkg.TypesInfo
+	recv := info.Defs[fi.Decl.Recv.List[0].Names[0]]
+	found := false
+	check := func(e ast.Expr) {
+		if _, isIdent := unparen(e).(*ast.Ident); !isIdent && rootObj(info, e) == recv {
+			found = true
+		}
+	}
+	ast.Inspect(fi.Decl.Body, func(n ast.Node) bool {
+		switch t := n.(type) {
+		case *ast.AssignStmt:
+			for _, l := range t.Lhs {
+				check(l)
+			}
+		case *ast.IncDecStmt:
+			check(t.X)
+		}
+		return !found
+	})
+	return found
 }
